@@ -120,7 +120,7 @@ def run(tier, rep):
     # ---- E3 served snapshots
     tot = 0
     nserved = 0
-    runs = [("", 12 if quick else 48, 1)]
+    runs = [("", 15 if quick else 60, 1)]      # 15 configurations (w_c19.CFGS), each at least once
     runs += [("wh_sync_mid:25000", 4 if quick else 16, 2), ("fin_sync:25000", 2 if quick else 8, 3), ("ce_sync:25000", 2 if quick else 8, 4)]
     for ys, nr, off in runs:
         wd = os.path.join(sc, "srv%d" % off)
